@@ -38,7 +38,8 @@ Definition show_outs (s : state) : list string :=
 Inductive cevent :=
 | CConnect (q : nat) (n : bytes) | CData (q : nat) (chunk : list seg) | CPeerClosed (q : nat) | CLost (q : nat)
 | CDoneRow (q : nat) (secret : bytes) (pub sub : list bytes) | CDoneNone (q : nat) | CDoneRaise (q : nat)
-| CPauseW (q : nat) | CResumeW (q : nat) | CResumePause (q : nat) | CTick (n : nat).
+| CPauseW (q : nat) | CResumeW (q : nat) | CResumePause (q : nat) | CTick (n : nat)
+| CStore (i : bytes) (v : option (bytes * list bytes * list bytes)).   (* the credential store changes between callbacks *)
 Definition events_of (e : cevent) : list event :=
   match e with
   | CConnect q n => [Connect q n] | CData q ch => [Data q (expand ch)] | CPeerClosed q => [PeerClosed q]
@@ -47,6 +48,7 @@ Definition events_of (e : cevent) : list event :=
   | CDoneNone q => [LookupDone q (RLook LNone)] | CDoneRaise q => [LookupDone q RRaise]
   | CPauseW q => [PauseW q] | CResumeW q => [ResumeW q] | CResumePause q => [ResumeW q; PauseW q]
   | CTick n => repeat Tick n
+  | CStore _ _ => []
   end.
 
 Fixpoint lookup_db (db : list (bytes * option (bytes * list bytes * list bytes))) (i : bytes) : lookup :=
@@ -57,20 +59,29 @@ Fixpoint lookup_db (db : list (bytes * option (bytes * list bytes * list bytes))
                    else lookup_db t i
   end.
 
-Fixpoint run_events (name : bytes) (st : ident -> lookup) (async : bool) (s : state) (es : list cevent) : list string :=
+(* A synchronous store is consulted anew at every OP_AUTH (Server.get_authkey), so its contents may change
+   between any two callbacks: the case is run segment by segment, each under the store then in effect
+   (step takes the store as an argument; a CStore event only replaces the binding of one ident). *)
+Definition cdb := list (bytes * option (bytes * list bytes * list bytes)).
+Definition cstep (name : bytes) (async : bool) (acc : cdb * state) (e : cevent) : cdb * state :=
+  match e with
+  | CStore i v => ((i, v) :: fst acc, snd acc)
+  | _ => (fst acc, fold_left (step name (lookup_db (fst acc)) async) (events_of e) (snd acc))
+  end.
+Fixpoint run_events (name : bytes) (db : cdb) (async : bool) (s : state) (es : list cevent) : list string :=
   match es with
   | [] => []
   | e :: t =>
-      let s' := fold_left (step name st async) (events_of e) s in
-      show_state s' :: run_events name st async s' t
+      let '(db', s') := cstep name async (db, s) e in
+      show_state s' :: run_events name db' async s' t
   end.
-Definition final_state (name : bytes) (st : ident -> lookup) (async : bool) (es : list cevent) : state :=
-  fold_left (step name st async) (List.concat (map events_of es)) state0.
+Definition final_state (name : bytes) (db : cdb) (async : bool) (es : list cevent) : state :=
+  snd (fold_left (cstep name async) es (db, state0)).
 (* one string per event (the state after it), then "$", then one string per connection (all it was sent) *)
-Definition run_broker_full (name : bytes) (db : list (bytes * option (bytes * list bytes * list bytes))) (async : bool)
+Definition run_broker_full (name : bytes) (db : cdb) (async : bool)
                       (es : list cevent) : list string :=
-  (run_events name (lookup_db db) async state0 es ++ ["$"%string] ++
-   show_outs (final_state name (lookup_db db) async es))%list.
+  (run_events name db async state0 es ++ ["$"%string] ++
+   show_outs (final_state name db async es))%list.
 
 (* the same observation as order-insensitive fingerprints (cheap to print): every {...} set is replaced
    by the sum of its items' Adler-32 values, registry member lists by a commutative hash, and each
@@ -106,14 +117,14 @@ Definition aspB (s : state) : string :=
   per_conn s (fun _ c => (bit (rpaused c) ++ ":" ++ show_nat (List.length (pending c)) ++ ":" ++ show_nat (List.length (buf c)))%string).
 Definition aspects (s : state) : list N :=
   map adler_s [aspD s; aspW s; aspF s; aspR s; aspG s; aspA s; aspB s].
-Fixpoint run_events_h (name : bytes) (st : ident -> lookup) (async : bool) (s : state) (es : list cevent) : list N :=
+Fixpoint run_events_h (name : bytes) (db : cdb) (async : bool) (s : state) (es : list cevent) : list N :=
   match es with
   | [] => []
   | e :: t =>
-      let s' := fold_left (step name st async) (events_of e) s in
-      (aspects s' ++ run_events_h name st async s' t)%list
+      let '(db', s') := cstep name async (db, s) e in
+      (aspects s' ++ run_events_h name db' async s' t)%list
   end.
 (* seven fingerprints per event *)
 Definition run_broker (name : bytes) (db : list (bytes * option (bytes * list bytes * list bytes))) (async : bool)
                       (es : list cevent) : list N :=
-  run_events_h name (lookup_db db) async state0 es.
+  run_events_h name db async state0 es.
